@@ -1067,7 +1067,15 @@ def oracle_c07(ctx, scen, T, conv, val, out):
     c = _col(conv, val)
     if c[0] != 'ok' or c[1] is None:
         return None
-    return c07_check(ctx, conv, val, c[1])
+    r = c07_check(ctx, conv, val, c[1])
+    if r:
+        return r
+    # the tree a caller gets from ConvertError stays what the converters reported, also after it was printed
+    try:
+        str(c[1])
+    except BaseException:  # noqa
+        return None
+    return c07_check(ctx, conv, val, c[1]) and 'after rendering: ' + str(c07_check(ctx, conv, val, c[1]))
 
 
 def oracle_c08(ctx, scen, T, conv, val, out):
@@ -1077,6 +1085,7 @@ def oracle_c08(ctx, scen, T, conv, val, out):
     c = _col(conv, val)
     if c[0] != 'ok' or c[1] is None:
         return None
+    before = canon(enc_tree(ctx, c[1]))
     try:
         a = str(c[1])
         b = str(c[1])
@@ -1084,6 +1093,8 @@ def oracle_c08(ctx, scen, T, conv, val, out):
         return f'rendering raised {type(e).__name__}: {e}'
     if a != b:
         return 'rendering is not deterministic'
+    if canon(enc_tree(ctx, c[1])) != before:
+        return 'rendering the error tree changed the tree (it no longer mirrors the type)'
     return c08_mentions(c[1], a)
 
 
